@@ -2,6 +2,7 @@
 from __future__ import annotations
 
 import ast
+import copy
 import itertools
 import re._parser as sre_parse  # regex ASTs (stdlib)
 
@@ -61,6 +62,60 @@ def structural_class_groups(pattern: str):
     return out
 
 
+def has_const(node, value) -> bool:
+    """the literal `value` (a dict key / message text: a stable anchor) occurs in the expression — local variable names do not count."""
+    return node is not None and any(isinstance(x, ast.Constant) and type(x.value) is type(value) and x.value == value for x in ast.walk(node))
+
+
+def loads_of(node) -> set:
+    return {x.id for x in ast.walk(node) if isinstance(x, ast.Name) and isinstance(x.ctx, ast.Load)} if node is not None else set()
+
+
+def stores_of(node) -> set:
+    return {x.id for x in ast.walk(node) if isinstance(x, ast.Name) and isinstance(x.ctx, ast.Store)} if node is not None else set()
+
+
+def root_name(node):
+    while isinstance(node, (ast.Subscript, ast.Attribute)):
+        node = node.value
+    return node.id if isinstance(node, ast.Name) else None
+
+
+def xev(e: ast.AST, env: dict):
+    """minieval.ev plus the string operations the parsers use to build paths / keys: str + str, sep.join(list), s.removeprefix(p), s[a:b].
+    Sub-expressions of these kinds are evaluated bottom-up on a fresh copy and replaced by their value; everything else is left to ev()."""
+
+    class T(ast.NodeTransformer):
+        def visit(self, n):
+            n = self.generic_visit(n)
+            try:
+                if isinstance(n, ast.BinOp) and isinstance(n.op, ast.Add):
+                    a, b = ev(n.left, env), ev(n.right, env)
+                    if (isinstance(a, str) and isinstance(b, str)) or (isinstance(a, list) and isinstance(b, list)):
+                        return ast.Constant(value=a + b)
+                elif isinstance(n, ast.Call) and isinstance(n.func, ast.Attribute) and n.func.attr == "join" and len(n.args) == 1 and not n.keywords:
+                    sep, parts = ev(n.func.value, env), ev(n.args[0], env)
+                    if isinstance(sep, str) and isinstance(parts, (list, tuple)) and all(isinstance(x, str) for x in parts):
+                        return ast.Constant(value=sep.join(parts))
+                elif isinstance(n, ast.Call) and isinstance(n.func, ast.Attribute) and n.func.attr == "removeprefix" and len(n.args) == 1 and not n.keywords:
+                    s_, p_ = ev(n.func.value, env), ev(n.args[0], env)
+                    if isinstance(s_, str) and isinstance(p_, str):
+                        return ast.Constant(value=s_.removeprefix(p_))
+                elif isinstance(n, ast.Subscript) and isinstance(n.slice, ast.Slice):
+                    base = ev(n.value, env)
+                    lo, hi, st = [ev(x, env) if x is not None else None for x in (n.slice.lower, n.slice.upper, n.slice.step)]
+                    if isinstance(base, (str, list)) and all(x is None or (isinstance(x, int) and not isinstance(x, bool)) for x in (lo, hi, st)) and st != 0:
+                        return ast.Constant(value=base[lo:hi:st])
+            except (CannotEval, TypeError):
+                pass
+            return n
+
+    try:
+        return ev(T().visit(source.clone(e)), env)
+    except TypeError as x:  # e.g. len(None): the extracted expression would raise on this value
+        raise CannotEval(f"{u(e)[:60]}: {x}")
+
+
 def run(chk):
     repo = chk.repo
     rn = repo.module(_R)
@@ -99,46 +154,108 @@ def run(chk):
                     return d["error-count"].id, d["success-count"].id
         raise AnchorMissing(f"result dict with error-count / success-count in {f.name}")
 
+    from sa import pat as _pat
+    from sa.classes import is_logging_stmt
+
+    def bound_by(s):
+        """names a statement (re)binds or updates in place: plain / tuple targets, and the root of a subscript / attribute target."""
+        tg = s.targets if isinstance(s, ast.Assign) else ([s.target] if isinstance(s, (ast.AugAssign, ast.AnnAssign)) else [])
+        out = set()
+        for t in tg:
+            out |= stores_of(t)
+            if isinstance(t, (ast.Subscript, ast.Attribute)) and root_name(t):
+                out.add(root_name(t))
+        return out
+
     tables = {}
     for f in (det, simp):
         L = item_loop(f)
+        if not isinstance(L.target, ast.Name):
+            raise AnchorMissing(f"loop variable of the item loop in {f.name}")
         itemv = L.target.id
         ERRC, OKC = counter_names(f)
 
-        def classify(item):
-            env = {itemv: {"index": item}}
+        def counter_hit(s, ERRC=ERRC, OKC=OKC):
+            """('err' | 'ok', k) when the statement adds the constant k to the error / success counter (the locals reported under error-count / success-count)."""
+            c = k = None
+            if isinstance(s, ast.AugAssign) and isinstance(s.target, ast.Name) and isinstance(s.op, ast.Add):
+                c, k = s.target.id, s.value
+            elif isinstance(s, ast.Assign) and len(s.targets) == 1 and isinstance(s.targets[0], ast.Name):
+                b_ = _pat.match(s.value, "V_c + E_k", binds={"c": s.targets[0].id}) or _pat.match(s.value, "E_k + V_c", binds={"c": s.targets[0].id})
+                if b_ is not None:
+                    c, k = s.targets[0].id, (s.value.right if isinstance(s.value.left, ast.Name) and s.value.left.id == s.targets[0].id else s.value.left)
+            if c not in (ERRC, OKC) or not isinstance(k, ast.Constant) or type(k.value) is not int:
+                return None
+            return ("err" if c == ERRC else "ok", k.value)
+
+        def is_details(s):
+            return isinstance(s, ast.Expr) and isinstance(s.value, ast.Call) and last_attr(s.value.func) == "extract_error_details"
+
+        # backward slice of the classification: the names the counting decision depends on (by data flow and control dependence), instead of guessing relevance from variable names
+        body_stmts = [n for st_ in L.body for n in source.walk_local(st_) if isinstance(n, ast.stmt)]
+        rel: set = set()
+
+        def touches(s, rel=rel, counter_hit=counter_hit, is_details=is_details):
+            return any(isinstance(x, ast.stmt) and (counter_hit(x) or is_details(x) or bound_by(x) & rel) for x in source.walk_local(s))
+
+        changed = True
+        while changed:
+            changed = False
+            for s_ in body_stmts:
+                if isinstance(s_, ast.If) and touches(s_):
+                    need = loads_of(s_.test)
+                elif isinstance(s_, (ast.Assign, ast.AugAssign, ast.AnnAssign)) and not counter_hit(s_) and bound_by(s_) & rel:
+                    need = loads_of(s_)
+                else:
+                    continue
+                if not need <= rel:
+                    rel |= need
+                    changed = True
+
+        def classify(item, L=L, itemv=itemv, ERRC=ERRC, OKC=OKC, rel=rel, counter_hit=counter_hit, is_details=is_details, touches=touches):
+            env = {itemv: {"index": copy.deepcopy(item)}}
             counters = {"err": 0, "ok": 0, "details": 0}
 
             def run_block(stmts):
                 for s in stmts:
-                    if isinstance(s, ast.Assign) and len(s.targets) == 1:
-                        t = s.targets[0]
-                        try:
-                            val = ev(s.value, env)
-                        except CannotEval:
-                            if isinstance(t, ast.Name) and any(isinstance(x, ast.Name) and x.id in env for x in ast.walk(s.value)) and ("status" in u(s.value) or "_shards" in u(s.value) or "item" in u(s.value)):
-                                raise
+                    hit = counter_hit(s)
+                    if hit:
+                        counters[hit[0]] += hit[1]
+                    elif is_details(s):
+                        counters["details"] += 1
+                    elif isinstance(s, ast.Pass) or is_logging_stmt(s):
+                        continue
+                    elif isinstance(s, (ast.Assign, ast.AugAssign, ast.AnnAssign)):
+                        b_ = bound_by(s)
+                        if b_ & {ERRC, OKC}:
+                            raise CannotEval(f"counter updated by something other than +1 at line {s.lineno}")
+                        if not b_ & rel:
+                            for x in b_:
+                                env.pop(x, None)  # the classification does not depend on it
                             continue
+                        if not isinstance(s, ast.Assign) or len(s.targets) != 1 or not isinstance(s.targets[0], (ast.Name, ast.Tuple, ast.Subscript)) or (
+                                isinstance(s.targets[0], ast.Tuple) and not all(isinstance(x, ast.Name) for x in s.targets[0].elts)):
+                            raise CannotEval(f"update of a value the item classification depends on: {short(s, 60)} at line {s.lineno}")
+                        t = s.targets[0]
+                        val = ev(s.value, env)
                         if isinstance(t, ast.Name):
                             env[t.id] = val
-                        elif isinstance(t, ast.Tuple) and all(isinstance(x, ast.Name) for x in t.elts):
+                        elif isinstance(t, ast.Subscript):
+                            # in-place update of (a part of) the item: applied to this run's private copy
+                            box, key_ = ev(t.value, env), ev(t.slice, env)
+                            if not isinstance(box, dict) or isinstance(key_, (dict, list, set)):
+                                raise CannotEval(f"in-place update {short(s, 60)} at line {s.lineno}")
+                            box[key_] = val
+                        else:
+                            if not isinstance(val, (list, tuple)) or len(val) != len(t.elts):
+                                raise CannotEval(f"unpacking {short(s, 60)} at line {s.lineno}")
                             for x, v in zip(t.elts, val):
                                 env[x.id] = v
-                    elif isinstance(s, ast.AugAssign) and isinstance(s.target, ast.Name):
-                        if s.target.id == ERRC:
-                            counters["err"] += 1
-                        elif s.target.id == OKC:
-                            counters["ok"] += 1
                     elif isinstance(s, ast.If):
-                        txt = u(s.test)
-                        relevant = any(k in txt for k in ("status", "_shards", "failed", "error")) or any(
-                            isinstance(x, ast.AugAssign) and isinstance(x.target, ast.Name) and x.target.id in (ERRC, OKC) for x in ast.walk(s))
-                        if not relevant:
+                        if not touches(s):
                             continue
                         run_block(s.body if ev(s.test, env) else s.orelse)
-                    elif isinstance(s, ast.Expr) and isinstance(s.value, ast.Call) and last_attr(s.value.func) == "extract_error_details":
-                        counters["details"] += 1
-                    elif isinstance(s, (ast.Expr, ast.AugAssign, ast.Pass)):
+                    elif isinstance(s, ast.Expr):
                         continue
                     else:
                         raise CannotEval(f"statement {type(s).__name__} at line {s.lineno}")
@@ -153,8 +270,10 @@ def run(chk):
             want_fail = item["status"] > 299 or ("_shards" in item and item["_shards"]["failed"] > 0)
             try:
                 c = classify(item)
-            except CannotEval as e:
-                chk.unknown("O19.1", f"item loop of {f.name} cannot be interpreted over the item domain: {e}", L)
+            except (CannotEval, TypeError) as e:
+                msg_ = f"item loop of {f.name} cannot be interpreted over the item domain: {e}"
+                if not any(msg_ in m_ for m_ in chk.inconclusive):
+                    chk.unknown("O19.1", msg_, L)
                 rows.append(None)
                 continue
             got = "failed" if (c["err"], c["ok"]) == (1, 0) else ("succeeded" if (c["err"], c["ok"]) == (0, 1) else f"err+={c['err']} ok+={c['ok']}")
@@ -176,20 +295,59 @@ def run(chk):
         inits = [n for n in walk_body(f) if isinstance(n, ast.Assign) and u(n.targets[0]) == counter_names(f)[0] and source.is_const(n.value, 0)]
         chk.ob("O19.1", f"{f.name}: error count starts at 0", len(inits) == 1 and not guards(inits[0]), inits[0] if inits else f, "")
     # fast path: success count when no errors are flagged == bulk size (docs), reset to 0 before counting items
+    sp = params_of(simp)
+    if len(sp) < 4:
+        raise AnchorMissing("simple_stats(self, bulk_size, unit, response)")
     sdefs = [n for n in walk_body(simp) if isinstance(n, ast.Assign) and u(n.targets[0]) == counter_names(simp)[1]]
-    ok = len(sdefs) == 2 and isinstance(sdefs[0].value, ast.IfExp) and u(sdefs[0].value.body) == params_of(simp)[1] and source.is_const(sdefs[1].value, 0) and bool(guards(sdefs[1]))
-    chk.ob("O19.1", "fast path: success count == bulk size unless items are inspected (then recounted from 0)", ok, sdefs[0] if sdefs else simp, "")
+    Ls = item_loop(simp)
+    first = [n for n in sdefs if not guards(n)]  # the unconditional initial value
+    reset = [n for n in sdefs if guards(n)]      # the recount, under the gate of the item loop
+    ok = len(sdefs) == 2 and len(first) == 1 and len(reset) == 1
+    if ok:
+        try:
+            # decided on values: for unit 'docs' the initial success count IS the bulk size, for any other unit it is not
+            ok = xev(first[0].value, {sp[1]: 7919, sp[2]: "docs"}) == 7919 and xev(first[0].value, {sp[1]: 7919, sp[2]: "ops"}) != 7919
+        except CannotEval:
+            ok = isinstance(first[0].value, ast.IfExp) and u(first[0].value.body) == sp[1]
+        # the recount starts from 0 under exactly the guards of the item loop, before the loop
+        ok = ok and source.is_const(reset[0].value, 0) and {(u(t), pol) for t, pol in guards(reset[0])} == {(u(t), pol) for t, pol in guards(Ls)} and reset[0].lineno < Ls.lineno
+    chk.ob("O19.1", "fast path: success count == bulk size unless items are inspected (then recounted from 0)", ok, first[0] if first else (sdefs[0] if sdefs else simp), "")
     full = [n for n in walk_body(simp) if isinstance(n, ast.Call) and dotted(n.func) == "json.loads"]
-    ok = bool(full) and any("errors" in u(t) and pol for t, pol in guards(full[0]))
+    # the variable holding the selectively parsed flags: assigned from parse(response, [... 'errors' ...])
+    flagv = [n.targets[0].id for n in walk_body(simp) if isinstance(n, ast.Assign) and len(n.targets) == 1 and isinstance(n.targets[0], ast.Name) and isinstance(n.value, ast.Call)
+             and dotted(n.value.func) == "parse" and has_const(n.value, "errors")]
+
+    def gate_open(node, errors):
+        """are all guards of node satisfied for a response whose top-level `errors` is true / false / absent? (None: cannot be evaluated)"""
+        if len(set(flagv)) != 1:
+            return None
+        env = {flagv[0]: ({"took": 3} if errors is None else {"took": 3, "errors": errors})}
+        sdefs_ = {k_: v_ for k_, v_ in local_defs(simp).items() if k_ != flagv[0]}
+        try:
+            return all(bool(xev(source.inline_node(t, sdefs_), dict(env))) == pol for t, pol in guards(node))
+        except CannotEval:
+            return None
+
+    ok = bool(full)
+    if ok:
+        g_ = [gate_open(full[0], e_) for e_ in (True, False, None)]
+        ok = g_ == [True, False, False] if None not in g_ else any(has_const(t, "errors") and pol for t, pol in guards(full[0]))
     chk.ob("O19.1", "fast path re-parses fully when errors are flagged", ok, full[0] if full else simp, "")
 
     # ---- O19.4 known finding F10 ---------------------------------------------------------------------------------------------------------------------
     chk.rule("O19.4", "the fast-path gate (top-level `errors` flag) summarises every disjunct of the item failure predicate", 1,
              "item with status 201 and _shards.failed=1 while errors=false: fast path reports success 1/0, detailed path failure 0/1")
     L = item_loop(simp)
-    gate = [t for t, pol in guards(L) if pol]
-    gated_by_errors = any("errors" in u(t) for t in gate)
-    pred_has_shards = any("_shards" in u(n.test) for n in ast.walk(L) if isinstance(n, ast.If))
+    g_ = [gate_open(L, e_) for e_ in (True, False, None)]
+    # the loop runs with errors=true but not with errors=false / absent (evaluated); fallback: a guard mentions the `errors` key
+    gated_by_errors = (g_[0] is True and g_[1] is False) if None not in g_ else any(has_const(t, "errors") for t, _ in guards(L))
+    # the item predicate has the `_shards.failed > 0` disjunct: read off the interpreted table (an item that fails ONLY because of its shards is counted as failed)
+    rows_s = tables.get("simple_stats") or []
+    shard_only = [i for i, it in enumerate(ITEMS) if it["status"] <= 299 and "_shards" in it and it["_shards"]["failed"] > 0]
+    if len(rows_s) == len(ITEMS) and all(rows_s[i] is not None for i in shard_only):
+        pred_has_shards = any(rows_s[i] == "failed" for i in shard_only)
+    else:
+        pred_has_shards = any(has_const(n.test, "_shards") for n in ast.walk(L) if isinstance(n, ast.If))
     chk.ob("O19.4", "fast-path gate vs `_shards.failed > 0`", not (gated_by_errors and pred_has_shards), L,
            "items are only inspected when the response's `errors` flag is set, but the item predicate also fails items with _shards.failed > 0, which Elasticsearch does not reflect in `errors`",
            key=f"{_R}:BulkIndex.simple_stats:gate-vs-item-predicate:_shards.failed")
@@ -281,34 +439,114 @@ def run(chk):
     if qcall is None:
         raise AnchorMissing("Query.__call__")
     inner = {n.name: n for n in ast.walk(qcall) if isinstance(n, (ast.AsyncFunctionDef, ast.FunctionDef))}
-    for fname, extractor, cursor_key, cur_src in (("_search_after_query", "_search_after_extractor", "search_after", "last_sort"), ("_composite_agg", "_composite_agg_extractor", "after", "after_key")):
+
+    def extractor_class(attr):
+        """class whose instance Query stores under self.<attr>."""
+        for n in ast.walk(Q):
+            if isinstance(n, ast.Assign) and any(is_self_attr(t, attr) for t in n.targets) and isinstance(n.value, ast.Call) and isinstance(n.value.func, ast.Name):
+                return rn.cls(n.value.func.id)
+        raise AnchorMissing(f"Query: self.{attr} = <Extractor>()")
+
+    def cursor_projection(attr, cursor_call, cursor_member):
+        """how the cursor is read off the extractor's result: ('tuple', i) when __call__ returns a tuple whose i-th element is the value located by `cursor_call`,
+        ('key', k) when it returns a dict that carries the cursor under the constant key k."""
+        ec = rn.methods(extractor_class(attr)).get("__call__")
+        if ec is None:
+            raise AnchorMissing(f"{attr}: __call__")
+        edefs = local_defs(ec)
+        rets = [n.value for n in walk_body(ec) if isinstance(n, ast.Return) and n.value is not None]
+        if cursor_call is not None:
+            idx = set()
+            for r in rets:
+                if not isinstance(r, ast.Tuple):
+                    raise AnchorMissing(f"{attr}.__call__ does not return a tuple")
+                idx |= {i for i, e_ in enumerate(r.elts) if any(isinstance(x, ast.Call) and last_attr(x.func) == cursor_call for x in ast.walk(source.inline_node(e_, edefs)))}
+            if len(idx) != 1:
+                raise AnchorMissing(f"{attr}.__call__: position of the {cursor_call}() result in the returned tuple")
+            return ("tuple", idx.pop())
+        if not any(isinstance(n, ast.Assign) and isinstance(n.targets[0], ast.Subscript) and source.is_const(n.targets[0].slice, cursor_member) for n in walk_body(ec)):
+            raise AnchorMissing(f"{attr}.__call__: result member {cursor_member!r}")
+        return ("key", cursor_member)
+
+    for fname, extractor, cursor_key, cursor_call, cursor_member in (("_search_after_query", "_search_after_extractor", "search_after", "_get_last_sort", None),
+                                                                    ("_composite_agg", "_composite_agg_extractor", "after", None, "after_key")):
         f = inner.get(fname)
         if f is None:
             raise AnchorMissing(f"Query.{fname}")
+        how = cursor_projection(extractor, cursor_call, cursor_member)
         gq = cfg_of(f)
-        lp = [n for n in walk_body(f) if isinstance(n, ast.For) and isinstance(n.iter, ast.Call) and dotted(n.iter.func) == "range"]
+        lp = [n for n in walk_body(f) if isinstance(n, ast.For) and isinstance(n.iter, ast.Call) and dotted(n.iter.func) == "range" and isinstance(n.target, ast.Name)]
         if not lp:
             raise AnchorMissing(f"page loop in {fname}")
         PL_ = lp[0]
+        # the accumulated result: the local the function returns
+        rets = {n.value.id for n in walk_body(f) if isinstance(n, ast.Return) and isinstance(n.value, ast.Name)}
+        if len(rets) != 1 or any(isinstance(n, ast.Return) and not isinstance(n.value, ast.Name) for n in walk_body(f)):
+            raise AnchorMissing(f"{fname}: the result variable (returned local)")
+        RES = rets.pop()
         rq = [n for n in ast.walk(PL_) if isinstance(n, ast.Await) and isinstance(n.value, ast.Call) and u(n.value.func) == "self._raw_search"]
         ex_ = [n for n in ast.walk(PL_) if isinstance(n, ast.Call) and u(n.func) == f"self.{extractor}"]
         ok = len(rq) == 1 and len(ex_) == 1
-        resp = u(source.enclosing_stmt(rq[0]).targets[0]) if ok and isinstance(source.enclosing_stmt(rq[0]), ast.Assign) else None
-        ok = ok and resp is not None and u(ex_[0].args[0]) == resp and gq.dominated_by_nodes(gq.node_of(ex_[0]), [gq.node_of(rq[0])]) and not gq.path_exists(gq.node_of(ex_[0]), gq.node_of(rq[0]), avoid=[gq.node_of(PL_)])
+        rs_ = source.enclosing_stmt(rq[0]) if ok else None
+        resp = rs_.targets[0].id if isinstance(rs_, ast.Assign) and rs_.value is rq[0] and len(rs_.targets) == 1 and isinstance(rs_.targets[0], ast.Name) else None
+
+        def loop_stores(name, PL_=PL_):
+            """statements of the page loop that (re)bind the local `name`."""
+            return [n for n in ast.walk(PL_) if isinstance(n, (ast.Assign, ast.AugAssign, ast.AnnAssign, ast.For, ast.NamedExpr, ast.With)) and name in stores_of(
+                n.target if isinstance(n, (ast.For, ast.AugAssign, ast.AnnAssign, ast.NamedExpr)) else (ast.Tuple(elts=[i.optional_vars for i in n.items if i.optional_vars is not None]) if isinstance(n, ast.With) else ast.Tuple(elts=list(n.targets))))]
+
+        ok = ok and resp is not None and len(loop_stores(resp)) == 1 and bool(ex_[0].args) and isinstance(ex_[0].args[0], ast.Name) and ex_[0].args[0].id == resp \
+            and gq.dominated_by_nodes(gq.node_of(ex_[0]), [gq.node_of(rq[0])]) and not gq.path_exists(gq.node_of(ex_[0]), gq.node_of(rq[0]), avoid=[gq.node_of(PL_)])
         chk.ob("O19.6", f"{fname}: one request per page, its own response handed to the extractor", ok, ex_[0] if ex_ else PL_, "")
         st = [n for n in ast.walk(PL_) if isinstance(n, ast.Assign) and isinstance(n.targets[0], ast.Subscript) and source.is_const(n.targets[0].slice, cursor_key)]
-        ok = len(st) == 1 and u(st[0].value) == cur_src
+        ok = len(st) == 1 and len(ex_) == 1
         if ok:
-            # the cursor variable is bound from the extractor's result of this iteration
-            binds = [n for n in ast.walk(PL_) if isinstance(n, ast.Assign) and any(isinstance(x, ast.Name) and x.id == cur_src and isinstance(x.ctx, ast.Store) for t in n.targets for x in ast.walk(t))]
-            ok = len(binds) == 1 and (binds[0].value is ex_[0] or u(binds[0].value) == "parsed['after_key']") and gq.dominated_by_nodes(gq.node_of(st[0]), [gq.node_of(binds[0])])
+            es_ = source.enclosing_stmt(ex_[0])
+            et = es_.targets[0] if isinstance(es_, ast.Assign) and es_.value is ex_[0] and len(es_.targets) == 1 else None
+
+            def from_extractor(e_):
+                """(is e_ this page's cursor as produced by the extractor?, the statements that must have run before it is read)."""
+                if how[0] == "tuple":
+                    # the name at the cursor's position of the tuple unpacked from the extractor call (or <result>[i])
+                    if isinstance(et, ast.Tuple) and how[1] < len(et.elts) and not any(isinstance(x, ast.Starred) for x in et.elts) and isinstance(et.elts[how[1]], ast.Name):
+                        return isinstance(e_, ast.Name) and e_.id == et.elts[how[1]].id and len(loop_stores(e_.id)) == 1, [es_]
+                    if isinstance(et, ast.Name):
+                        return _pat.match(e_, f"V_p[{how[1]}]", binds={"p": et.id}) is not None and len(loop_stores(et.id)) == 1, [es_]
+                    return False, []
+                if isinstance(et, ast.Name):
+                    # <result>[key] with <result> bound once per page, from the extractor call
+                    return _pat.match(e_, f"V_p[{how[1]!r}]", binds={"p": et.id}) is not None and len(loop_stores(et.id)) == 1, [es_]
+                return False, []
+
+            v_ = st[0].value
+            direct, need = from_extractor(v_)
+            if direct:
+                ok = True
+            elif isinstance(v_, ast.Name):
+                # one local in between: bound once per page, from the extractor's result of this iteration
+                binds = loop_stores(v_.id)
+                ok = len(binds) == 1 and isinstance(binds[0], ast.Assign) and len(binds[0].targets) == 1 and isinstance(binds[0].targets[0], ast.Name)
+                if ok:
+                    ok, need = from_extractor(binds[0].value)
+                    need = need + [binds[0]]
+            else:
+                ok = False
+            ok = ok and all(gq.dominated_by_nodes(gq.node_of(st[0]), [gq.node_of(n_)]) for n_ in need)
         chk.ob("O19.6", f"{fname}: next cursor := the extractor's result for this page", ok, st[0] if st else PL_, short(st[0], 70) if st else "cursor never set")
-        pg = {u(n.targets[0].slice): u(n.value) for n in ast.walk(PL_) if isinstance(n, ast.Assign) and isinstance(n.targets[0], ast.Subscript) and u(n.targets[0].value) == "results" and isinstance(n.targets[0].slice, ast.Constant)}
+        pg = {n.targets[0].slice.value: n.value for n in ast.walk(PL_) if isinstance(n, ast.Assign) and isinstance(n.targets[0], ast.Subscript) and isinstance(n.targets[0].value, ast.Name)
+              and n.targets[0].value.id == RES and isinstance(n.targets[0].slice, ast.Constant)}
         iv = PL_.target.id
-        ok = pg.get("'pages'") == iv and pg.get("'weight'") == iv and u(PL_.iter.args[0]) == "1"
-        chk.ob("O19.6", f"{fname}: pages == weight == requests issued", ok, PL_, f"{ {k: v for k, v in pg.items() if k in (chr(39)+'pages'+chr(39), chr(39)+'weight'+chr(39))} }")
+        ok = all(isinstance(pg.get(k_), ast.Name) and pg[k_].id == iv for k_ in ("pages", "weight")) and len(PL_.iter.args) == 2 and source.is_const(PL_.iter.args[0], 1) and len(loop_stores(iv)) == 1
+        chk.ob("O19.6", f"{fname}: pages == weight == requests issued", ok, PL_, f"{ {k: u(v) for k, v in pg.items() if k in ('pages', 'weight')} }")
         hs = [n for n in ast.walk(PL_) if isinstance(n, ast.Assign) and isinstance(n.targets[0], ast.Subscript) and source.is_const(n.targets[0].slice, "hits")]
-        ok = len(hs) == 1 and any(pol and u(t) == "results.get('hits') is None" for t, pol in guards(hs[0], stop=PL_))
+        ok = len(hs) == 1
+        if ok:
+            try:
+                # decided on values: the store is reached while no hit total is recorded yet, and not once one is
+                reach = [all(bool(xev(t, {RES: dict(r_)})) == pol for t, pol in guards(hs[0], stop=PL_)) for r_ in ({"unit": "pages", "took": 0}, {"unit": "pages", "took": 0, "hits": 10000}, {"unit": "pages", "took": 0, "hits": 0})]
+                ok = reach == [True, False, False] and bool(guards(hs[0], stop=PL_))
+            except CannotEval:
+                ok = _pat.guarded(hs[0], f"{RES}.get('hits') is None", stop=PL_) is not None
         chk.ob("O19.6", f"{fname}: hit total taken from the first page only", ok, hs[0] if hs else PL_, "")
 
     # ---- O19.7 flags accumulated over pages are sticky -------------------------------------------------------------------------------------------------
@@ -358,36 +596,57 @@ def run(chk):
              "a property with the same leaf name at another depth is returned; dotted member keys are mangled; extraction stops before a later requested value")
     pf = rn.func("parse")
     pp = params_of(pf)
-    loops = [n for n in walk_body(pf) if isinstance(n, ast.For) and isinstance(n.target, ast.Tuple) and len(n.target.elts) == 3]
+    if len(pp) < 4:
+        raise AnchorMissing("parse(text, props, lists, objects)")
+    loops = [n for n in walk_body(pf) if isinstance(n, ast.For) and isinstance(n.target, ast.Tuple) and len(n.target.elts) == 3 and all(isinstance(t, ast.Name) for t in n.target.elts)]
     if not loops:
         raise AnchorMissing("event loop `for prefix, event, value in parser` in parse()")
     PL = loops[0]
     pre, evn, val = [t.id for t in PL.target.elts]
-    st = [n for n in ast.walk(PL) if isinstance(n, ast.Assign) and isinstance(n.targets[0], ast.Subscript) and u(n.targets[0].value) == "parsed"]
-    ok = len(st) == 1 and u(st[0].targets[0].slice) == pre and u(st[0].value) == val and any(pol and u(t) == f"{pre} in {pp[1]}" for t, pol in guards(st[0], stop=PL))
-    chk.ob("O19.3", "property matched on the full prefix and stored under it", ok, st[0] if st else PL, "")
-    for kind, param, event in (("list", pp[2], "start_array"), ("object start", pp[3], "start_map"), ("object end", pp[3], "end_map")):
-        found = False
-        for n in ast.walk(PL):
-            if isinstance(n, ast.If):
-                ats = [u(a) for a in atoms_of(n.test)]
-                if f"{pre} in {param}" in ats and f"{evn} == '{event}'" in ats:
-                    found = True
-        chk.ob("O19.3", f"{kind} matched on full prefix and event", found, PL, "")
-    mk = [n for n in ast.walk(PL) if isinstance(n, ast.Assign) and isinstance(n.targets[0], ast.Subscript) and u(n.targets[0].value) == "current_object"]
-    ok = False
-    detail = ""
-    if mk:
-        k = mk[0].targets[0].slice
-        detail = u(k)
-        ok = u(k) in (f"{pre}[len(in_object) + 1:]", f"{pre}.removeprefix(in_object + '.')", f"{pre}[len(in_object) + len('.'):]")
-    chk.ob("O19.3", "member key == prefix with the object's own path stripped", ok, mk[0] if mk else PL, detail + ("" if ok else " — keys containing '.' are mangled / collide"))
-    # member values of a collected object, decided on VALUES: inside object `a`, a scalar event stores its value whatever that value is (false, 0, 0.0 and "" included);
-    # keys and container events store nothing
     from sa import minieval as _me
-    from sa import pat as _pat
+
+    def sub_stores(root_=None):
+        """in-loop statements `<name>[key] = value` (optionally only those into the local `root_`)."""
+        return [n for n in ast.walk(PL) if isinstance(n, ast.Assign) and len(n.targets) == 1 and isinstance(n.targets[0], ast.Subscript) and isinstance(n.targets[0].value, ast.Name)
+                and (root_ is None or n.targets[0].value.id == root_)]
+
+    # roles of parse()'s locals, by data flow: RES is the dict it returns; the dicts merged into it at the end are the list flags (values: `event == 'end_array'`) and the collected
+    # objects (values: the dict being filled, stored when the object's end_map arrives); INOBJ holds the path of the object being collected (bound from the prefix at its start_map)
+    rets = {n.value.id for n in walk_body(pf) if isinstance(n, ast.Return) and isinstance(n.value, ast.Name)}
+    RES = rets.pop() if len(rets) == 1 else None
+    merged = [n.args[0].id for n in walk_body(pf) if isinstance(n, ast.Call) and RES is not None and _pat.match(n.func, "V_r.update", binds={"r": RES}) is not None and len(n.args) == 1
+              and isinstance(n.args[0], ast.Name)]
+    lists_v = {m for m in merged if any(_pat.is_(n.value, f"{evn} == 'end_array'") for n in sub_stores(m))}
+    objs = {(m, n.value.id) for m in merged for n in sub_stores(m) if isinstance(n.value, ast.Name) and _pat.guarded(n, f"{evn} == 'end_map'", stop=PL) is not None}
+    LISTS = lists_v.pop() if len(lists_v) == 1 else None
+    OBJS, CUR = objs.pop() if len(objs) == 1 else (None, None)
     inobj = [n.targets[0].id for n in ast.walk(PL) if isinstance(n, ast.Assign) and isinstance(n.targets[0], ast.Name) and isinstance(n.value, ast.Name) and n.value.id == pre
              and _pat.guarded(n, f"{evn} == 'start_map'", stop=PL) is not None]
+    INOBJ = inobj[0] if len(set(inobj)) == 1 else None
+
+    st = sub_stores(RES) if RES is not None else []
+    ok = len(st) == 1 and _pat.is_(st[0].targets[0], "V_r[V_p]", binds={"r": RES, "p": pre}) and _pat.is_(st[0].value, val) and _pat.guarded(st[0], f"{pre} in {pp[1]}", stop=PL) is not None
+    chk.ob("O19.3", "property matched on the full prefix and stored under it", ok, st[0] if st else PL, "" if RES is not None else "the dict returned by parse() could not be identified")
+    for kind, param, event in (("list", pp[2], "start_array"), ("object start", pp[3], "start_map"), ("object end", pp[3], "end_map")):
+        # some statement of the loop runs exactly under the facts `prefix in <param>` and `event == '<event>'` (any nesting, orientation, arm)
+        found = any(isinstance(n, ast.stmt) and _pat.guarded(n, f"{pre} in {param}", stop=PL) is not None and _pat.guarded(n, f"{evn} == '{event}'", stop=PL) is not None for n in ast.walk(PL))
+        chk.ob("O19.3", f"{kind} matched on full prefix and event", found, PL, "")
+    mk = [n for n in sub_stores(CUR) if _pat.is_(n.value, val)] if CUR is not None else []
+    ok = False
+    detail = "" if CUR is not None else "the dict collecting the members of the current object could not be identified"
+    if mk and INOBJ is not None:
+        k = mk[0].targets[0].slice
+        detail = u(k)
+        k = source.inline_node(k, {n_: d_ for n_, d_ in local_defs(pf).items() if n_ not in (pre, evn, val, INOBJ)})  # a key computed into a single-assignment local first
+        try:
+            # decided on values: with the object at path o and an event at path o + '.' + member, the key is the member (dots inside the member kept)
+            ok = len(mk) == 1 and all(xev(k, {pre: o_ + "." + m_, INOBJ: o_, evn: "string", val: "v"}) == m_ for o_, m_ in
+                                      (("aggregations.x.after_key", "k"), ("a", "b.c.d"), ("a", "a.k"), ("a.b", "b"), ("o.k", "k.o.k"), ("ab", "x")))
+        except CannotEval:
+            ok = len(mk) == 1 and _pat.is_(k, "V_p[len(V_o) + 1:]", "V_p[1 + len(V_o):]", "V_p.removeprefix(V_o + '.')", "V_p[len(V_o) + len('.'):]", "V_p[len(V_o + '.'):]", binds={"p": pre, "o": INOBJ})
+    chk.ob("O19.3", "member key == prefix with the object's own path stripped", ok, mk[0] if mk else PL, detail + ("" if ok else " — keys containing '.' are mangled / collide"))
+    # member values of a collected object, decided on VALUES: inside object `a`, a scalar event stores its value whatever that value is (null, false, 0, 0.0 and "" included);
+    # keys and container events store nothing
     init_env = {}
     for n in pf.body:
         if isinstance(n, ast.Assign) and len(n.targets) == 1 and isinstance(n.targets[0], ast.Name):
@@ -395,12 +654,12 @@ def run(chk):
                 init_env[n.targets[0].id] = _me.ev(n.value, {})
             except _me.CannotEval:
                 pass
-    if len(set(inobj)) == 1:
-        EVENTS = [("boolean", False, True), ("boolean", True, True), ("integer", 0, True), ("integer", 7, True), ("double", 0.0, True), ("number", 0, True), ("string", "", True),
+    if INOBJ is not None:
+        EVENTS = [("null", None, True), ("boolean", False, True), ("boolean", True, True), ("integer", 0, True), ("integer", 7, True), ("double", 0.0, True), ("number", 0, True), ("string", "", True),
                   ("string", "x", True), ("map_key", "k", False), ("start_array", None, False), ("end_array", None, False)]
         for ev_name, v_, stored in EVENTS:
             env_ = dict(init_env)
-            env_.update({pre: "a.k", evn: ev_name, val: v_, pp[1]: [], pp[2]: None, pp[3]: ["a"], inobj[0]: "a"})
+            env_.update({pre: "a.k", evn: ev_name, val: v_, pp[1]: [], pp[2]: None, pp[3]: ["a"], INOBJ: "a"})
 
             def atom_p(n, env, env_=env_):
                 try:
@@ -413,7 +672,9 @@ def run(chk):
             except (Unsupported, UnknownAtom) as e:
                 chk.unknown("O19.3", f"the event dispatch of parse() is not a decision over (prefix, event, value): {e}", PL)
                 break
-            got = [e_ for e_ in out_.effects if isinstance(e_, ast.Assign) and isinstance(e_.targets[0], ast.Subscript) and u(e_.value) == val and u(e_.targets[0].slice) != pre]
+            # a store of the event's value into a dict other than the returned one (that one is keyed by the full prefix: the property store)
+            got = [e_ for e_ in out_.effects if isinstance(e_, ast.Assign) and isinstance(e_.targets[0], ast.Subscript) and _pat.is_(e_.value, val) and root_name(e_.targets[0]) != RES
+                   and not _pat.is_(e_.targets[0].slice, pre)]
             ok = (len(got) == 1) == stored
             chk.ob("O19.3", f"object member: event {ev_name} value {v_!r} -> {'stored' if stored else 'nothing stored'}", ok, PL,
                    ("stored" if got else "not stored") + ("" if ok else " — a falsy member value is dropped, so the extracted object differs from the fully parsed one (e.g. a composite after_key with false / 0 / '')"),
@@ -422,24 +683,58 @@ def run(chk):
         chk.unknown("O19.3", "the variable holding the path of the object being collected could not be identified in parse()", PL)
     brk = [n for n in ast.walk(PL) if isinstance(n, ast.Break)]
     ok = False
-    if len(brk) == 1:
+    detail = ""
+    if len(brk) == 1 and None not in (RES, LISTS, OBJS):
+        # decided on values: over requested / seen combinations the loop is left iff every requested property, list and object has been seen
         gs = guards(brk[0], stop=PL)
-        if len(gs) == 1 and gs[0][1] and isinstance(gs[0][0], ast.BoolOp) and isinstance(gs[0][0].op, ast.And):
-            conj = [u(v) for v in gs[0][0].values]
-            ok = f"len(parsed) == len({pp[1]})" in conj and any(f"len(parsed_lists) == len({pp[2]})" in c for c in conj) and any(f"len(parsed_objects) == len({pp[3]})" in c for c in conj)
-    chk.ob("O19.3", "early exit only when all requested properties, lists and objects were seen", ok, brk[0] if brk else PL, "")
+        want = ["p1", "p2"]
+        grid = [(dict.fromkeys(want[:np_], 1), ls_, dict.fromkeys((ls_ or ["l1"])[:nl_], True), os_, dict.fromkeys((os_ or ["o1"])[:no_], {}))
+                for np_ in (0, 1, 2) for ls_ in (None, ["l1"], ["l1", "l2"]) for nl_ in range(0, len(ls_ or []) + 1) for os_ in (None, ["o1"], ["o1", "o2"]) for no_ in range(0, len(os_ or []) + 1)]
+        ok = bool(gs)
+        try:
+            for seen_p, ls_, seen_l, os_, seen_o in grid:
+                env_ = dict(init_env)
+                env_.update({pp[1]: want, pp[2]: ls_, pp[3]: os_, RES: seen_p, LISTS: seen_l, OBJS: seen_o})
+                leaves = all(bool(xev(t, dict(env_))) == pol for t, pol in gs)
+                complete = len(seen_p) == len(want) and (ls_ is None or len(seen_l) == len(ls_)) and (os_ is None or len(seen_o) == len(os_))
+                if leaves != complete:
+                    ok = False
+                    detail = f"with {len(seen_p)}/{len(want)} properties, {len(seen_l)}/{'-' if ls_ is None else len(ls_)} lists, {len(seen_o)}/{'-' if os_ is None else len(os_)} objects seen the scan {'stops' if leaves else 'continues'}"
+                    break
+        except CannotEval as e:
+            ok = False
+            if len(gs) == 1 and gs[0][1] and isinstance(gs[0][0], ast.BoolOp) and isinstance(gs[0][0].op, ast.And):
+                conj = gs[0][0].values
+                ok = any(_pat.is_(c, f"len({RES}) == len({pp[1]})") for c in conj) and any(_pat.find(c, f"len({LISTS}) == len({pp[2]})") for c in conj) and any(_pat.find(c, f"len({OBJS}) == len({pp[3]})") for c in conj)
+            detail = "" if ok else f"exit condition not evaluable: {e}"
+    elif len(brk) == 1:
+        detail = "the dicts of seen properties / lists / objects could not be identified"
+    chk.ob("O19.3", "early exit only when all requested properties, lists and objects were seen", ok, brk[0] if brk else PL, detail)
     tr = source.enclosing(PL, ast.Try)
     ok = tr is not None and len(tr.handlers) == 1 and last_attr(tr.handlers[0].type) == "IncompleteJSONError"
     chk.ob("O19.3", "only an incomplete document is tolerated", ok, tr if tr is not None else PL, "")
-    ok = any(isinstance(n, ast.Call) and u(n.func) == f"{pp[0]}.seek" and source.is_const(n.args[0], 0) for n in walk_body(pf))
+    ok = any(isinstance(n, ast.Call) and u(n.func) == f"{pp[0]}.seek" and n.args and source.is_const(n.args[0], 0) for n in walk_body(pf))
     chk.ob("O19.3", "the response is scanned from its start", ok, pf, "")
-    # composite agg: after_key path is the full path
+    # composite agg: after_key path is the full path — the (single) object path handed to parse(), evaluated on a representative aggregation path
     CA = rn.cls("CompositeAggExtractor")
     cc = rn.methods(CA).get("__call__")
-    ak = [n for n in walk_body(cc) if isinstance(n, ast.Assign) and u(n.targets[0]) == "after_key"] if cc else []
-    ok = bool(ak) and u(ak[0].value).startswith("'aggregations.' + '.'.join(") and u(ak[0].value).endswith("+ '.after_key'")
-    chk.ob("O19.3", "composite cursor requested by its full path", ok, ak[0] if ak else CA, "")
-
+    ok = False
+    site = CA
+    detail = ""
+    if cc is not None and len(params_of(cc)) >= 4:
+        pathp = params_of(cc)[3]
+        cdefs = local_defs(cc)
+        pcalls = [n for n in walk_body(cc) if isinstance(n, ast.Call) and dotted(n.func) == "parse"]
+        oarg = source.bind_args(pcalls[0], pf).get(pp[3]) if len(pcalls) == 1 else None
+        if oarg is not None:
+            site = pcalls[0]
+            oarg = source.inline_node(oarg, cdefs)
+            detail = u(oarg)
+            try:
+                ok = all(xev(oarg, {pathp: path_}) == ["aggregations." + ".".join(path_) + ".after_key"] for path_ in (["by_day"], ["outer", "inner"], ["a", "b", "c"]))
+            except CannotEval:
+                ok = isinstance(oarg, ast.List) and len(oarg.elts) == 1 and _pat.is_(oarg.elts[0], "'aggregations.' + '.'.join(V_p) + '.after_key'", binds={"p": pathp})
+    chk.ob("O19.3", "composite cursor requested by its full path", ok, site, detail)
 
 from sa.selftest import V  # noqa: E402
 
